@@ -256,8 +256,12 @@ void NifFile::SetShapeOrder(const std::vector<std::string>& order) {
 
 	for (auto& s : order) {
 		auto shape = FindBlockByName<NiShape>(s);
-		if (shape)
-			sortState.rootShapeOrder.push_back(GetBlockID(shape));
+		if (shape) {
+			// A shape named twice must not end up twice in the root's child list
+			uint32_t shapeId = GetBlockID(shape);
+			if (!contains(sortState.rootShapeOrder, shapeId))
+				sortState.rootShapeOrder.push_back(shapeId);
+		}
 	}
 
 	auto root = GetRootNode();
